@@ -10,9 +10,9 @@ import (
 //	camelcase-siblings   two siblings whose names are equal after CamelCase (leaf-one / leaf-One / leafOne)
 //	dash-underscore      two siblings differing only in '-', '_' or '.' (a-b / a_b / a.b)
 //	go-keyword           a node named like a Go keyword or predeclared identifier
-//	method-validate      a node named validate / Validate (generated method Validate / ΛValidate)
+//	method-validate      a node named validate / Validate / populate-defaults (generated methods Validate, PopulateDefaults)
 //	method-accessor      a node whose CamelCase name equals a generated accessor of a sibling (get-x, new-x, append-x, delete-x, rename-x, get-or-create-x, set-x)
-//	helper-name          a node named like another generated helper / method (key, string, goStruct, is-yang-go-struct, populate-defaults, ...)
+//	helper-name          a node named like another generated helper / type (key, string, goStruct, is-yang-go-struct, binary, union, ...)
 //	digits-dots          legal identifiers with digits, dots, leading underscore, trailing separators
 //	enum-sanitise-clash  enum members equal after sanitising (a-b / a_b / a.b)
 //	enum-UNSET           an enum member called UNSET
@@ -54,7 +54,7 @@ var goWords = []string{"type", "func", "range", "map", "chan", "select", "go", "
 	"bool", "error", "nil", "true", "false", "len", "new", "make", "append", "uint8", "float64", "byte", "any", "iota", "init",
 	"main", "package", "import", "var", "const", "return", "switch", "default", "break", "continue", "fallthrough", "goto", "for", "if", "else", "case"}
 
-var helperWords = []string{"key", "Key", "string", "String", "goStruct", "is-yang-go-struct", "populate-defaults", "unmarshal",
+var helperWords = []string{"key", "Key", "string", "String", "goStruct", "is-yang-go-struct", "unmarshal",
 	"schema", "schema-tree", "unzip-schema", "enum-type-map", "belonging-module", "list-key-map", "binary", "yang-empty",
 	"union", "ordered-map", "keys", "values", "len", "get", "append-new", "e", "x"}
 
@@ -107,7 +107,7 @@ func (g *gen) nodeName(sc *scope, kind string) string {
 			n = try(ClGoKeyword, w)
 		}
 	case 3:
-		w := pick(g, []string{"validate", "Validate"}, "hostile-validate")
+		w := pick(g, []string{"validate", "Validate", "populate-defaults"}, "hostile-validate")
 		if sc.free(w) {
 			n = try(ClMethodValidate, w)
 		}
